@@ -74,9 +74,12 @@ def plan(tier, seed):
             d = lops.MAKERS[kind](rng, None, maxn)
         P.add("blocksnd", desc=d)
     rng = P.rng("toeplitz")
-    for i in range(40 if quick else 400):
+    for i in range(80 if quick else 800):
         nd = int(pick(rng, [1, 2, 2, 3]))
         grid = [int(rng.integers(4, [17, 9, 6][nd - 1])) for _ in range(nd)]
+        if i % 2:
+            # size-dependent regime: long axes, primes and numbers with large prime factors
+            grid = [int(rng.integers([10, 8, 5][nd - 1], [41, 21, 10][nd - 1])) for _ in range(nd)]
         M = int(rng.integers(16, 40))
         ov, w = pick(rng, [(1.25, 4), (1.25, 4), (2, 4)])
         d = {"op": "NUFFT", "ishape": pick(rng, [[], [], [], [2], [2], [1], [2, 3]]) + grid,
